@@ -26,7 +26,7 @@ ASSUMPTIONS = [
     "allowed differences: STRT/STOP/STEP values, STRT/STOP/STEP and index-curve units, empty value with a unit -> 0",
 ]
 REQUIRED = ["write_read_pairs", "items_compared", "cases_widest_item_has_empty_value", "cases_blank_mnemonic", "cases_duplicate_mnemonic",
-            "version_1.2", "version_2.0", "case_upper", "case_lower", "case_preserve", "other_text_compared", "second_generation_round_trips", "cases_header_line_over_256_chars", "other_text_with_empty_lines"]
+            "version_1.2", "version_2.0", "case_upper", "case_lower", "case_preserve", "other_text_compared", "second_generation_round_trips", "cases_header_line_over_256_chars", "other_text_with_empty_lines", "other_text_with_unicode_line_separators"]
 SOFT_DEADLINE = {"quick": 90, "thorough": 1500}
 LEVEL_TEXT = ("Exploration: every item of every section is compared after a write->read cycle; the generators rotate which item "
               "determines the section's column widths, since one line's correctness depends on all other items of its section.")
@@ -132,6 +132,9 @@ def make_spec(rng, mode=None):
     spec["short_default_descr"] = rng.choice([0, 0, 1, 2, 3])
     other = [fields.text(rng, colons=True) for _ in range(rng.randint(0, 3))]
     other = [s for s in other if s and not s.startswith("~")]
+    if rng.random() < 0.15:
+        # characters str.splitlines() treats as line boundaries although files do not: ordinary text of a free-text line
+        other.append(rng.choice(["form\x0cfeed %d", "NEL\x85here %d", "LS\u2028PS\u2029 %d", "FS\x1cGS\x1dRS\x1e %d", "VT\x0bend %d"]) % rng.randint(0, 99))
     if len(other) >= 2 and rng.random() < 0.5:
         # paragraphs: empty (or blank-only) lines between text lines are part of the ~Other text
         for _ in range(rng.randint(1, 3)):
@@ -300,9 +303,11 @@ def run_case(case, ctx):
                                       "%s after read(%s) -> write -> read: %d items, item #%d %r; before: %d items, item #%d %r" % (
                                           name, mc, len(got2), k, got2[k:k + 1], len(w2), k, w2[k:k + 1]), {"text": text, "second text": b2.getvalue(), "version": version})
         ctx.count("other_text_compared")
-        if any(not ln.strip() for ln in spec["Other"].splitlines()):
+        if any(not ln.strip() for ln in spec["Other"].split("\n")):
             ctx.count("other_text_with_empty_lines")
-        want_other = "\n".join(s.strip() for s in spec["Other"].splitlines())
+        if any(ch in spec["Other"] for ch in "\x0b\x0c\x1c\x1d\x1e\x85\u2028\u2029"):
+            ctx.count("other_text_with_unicode_line_separators")
+        want_other = "\n".join(s.strip(" \t") for s in spec["Other"].split("\n"))
         if back.other != want_other:
             ctx.violation("other-text-changed", "~Other %r -> %r" % (want_other, back.other), {"text": text})
     sizes = [len(spec[s]) for s in ("Version", "Well", "Curves", "Parameter")]
